@@ -141,10 +141,27 @@ const (
 	c20Append
 	c20Seal
 	c20BuildKeyID
+	c20BuildSharedOption // one WithRNG option value configures two builders; the first token is minted from a healthy prefix of the source
 	c20NOps
 )
 
-var c20OpNames = []string{"Builder.Build(WithRNG)", "biscuit.New(rng)", "Append(rng)", "Seal(rng)", "Builder.Build(WithRNG, WithRootKeyID)"}
+// c20Chain reads from first until it is exhausted, then from second.
+type c20Chain struct {
+	first, second io.Reader
+}
+
+func (c *c20Chain) Read(p []byte) (int, error) {
+	if c.first != nil {
+		n, err := c.first.Read(p)
+		if n > 0 || err == nil {
+			return n, nil
+		}
+		c.first = nil
+	}
+	return c.second.Read(p)
+}
+
+var c20OpNames = []string{"Builder.Build(WithRNG)", "biscuit.New(rng)", "Append(rng)", "Seal(rng)", "Builder.Build(WithRNG, WithRootKeyID)", "second Builder.Build through a shared WithRNG option"}
 
 func init() {
 	register(&sup.Check{
@@ -176,8 +193,23 @@ func init() {
 					}
 					parentBytes, _ = parent.Serialize()
 				}
+				var sharedOpt = biscuit.WithRNG(&c20Chain{first: bytes.NewReader(bytes.Repeat([]byte{0x5a}, 32)), second: rd})
+				if op == c20BuildSharedOption {
+					b := biscuit.NewBuilder(priv, sharedOpt)
+					hx.FillBuilder(b, poolQ)
+					parent, err = b.Build()
+					if err != nil {
+						w.Violate("C20:setup-failed", human, err.Error(), "a first token from the healthy prefix of the source")
+						return
+					}
+					parentBytes, _ = parent.Serialize()
+				}
 				r, stack := sup.Catch(func() {
 					switch op {
+					case c20BuildSharedOption:
+						b := biscuit.NewBuilder(priv, sharedOpt)
+						hx.FillBuilder(b, poolP)
+						tok, err = b.Build()
 					case c20Build:
 						b := biscuit.NewBuilder(priv, biscuit.WithRNG(rd))
 						hx.FillBuilder(b, poolP)
@@ -211,12 +243,12 @@ func init() {
 				if parent != nil {
 					if _, e := parent.AuthorizerFor(biscuit.WithSingularRootPublicKey(pub), hx.LongLimits); e != nil {
 						w.Class("parent-damaged")
-						w.Violate("C20:parent-token-damaged-by-"+map[int]string{c20Append: "append", c20Seal: "seal"}[op], human, "the parent no longer verifies: "+e.Error(), "unchanged")
+						w.Violate("C20:parent-token-damaged-by-"+map[int]string{c20Append: "append", c20Seal: "seal", c20BuildSharedOption: "a-later-build"}[op], human, "the parent no longer verifies: "+e.Error(), "unchanged")
 						return
 					}
 					if now, _ := parent.Serialize(); !bytes.Equal(now, parentBytes) {
 						w.Class("parent-damaged")
-						w.Violate("C20:parent-token-damaged-by-"+map[int]string{c20Append: "append", c20Seal: "seal"}[op], human, fmt.Sprintf("the parent now serializes to %x", now), fmt.Sprintf("%x", parentBytes))
+						w.Violate("C20:parent-token-damaged-by-"+map[int]string{c20Append: "append", c20Seal: "seal", c20BuildSharedOption: "a-later-build"}[op], human, fmt.Sprintf("the parent now serializes to %x", now), fmt.Sprintf("%x", parentBytes))
 						return
 					}
 					bb := parent.CreateBlock()
